@@ -44,6 +44,13 @@ class Call:
         k = self.func[1] if self.func[0] == "k" else {}
         self.callee = k.get("fn")          # path as written (trait method for trait calls)
         self.res = k.get("res") or k.get("fn")  # resolved path when resolution succeeded
+        rn = getattr(getattr(fn, "prog", None), "renames", None)
+        if rn:
+            for n_, o_ in rn.items():
+                if self.callee and (self.callee == n_ or self.callee.startswith(n_ + "::")):
+                    self.callee = o_ + self.callee[len(n_):]
+                if self.res and (self.res == n_ or self.res.startswith(n_ + "::")):
+                    self.res = o_ + self.res[len(n_):]
         self.ga = k.get("ga", [])
         self.res_ga = k.get("res_ga", self.ga)
         self.trait = k.get("trait")
@@ -523,6 +530,78 @@ class Program:
         self.adts = {a["path"]: a for a in facts["adts"]}
         self.impls = facts["impls"]
         self._callers = None
+        self.renames = {}       # new path -> the path the rule base knows (private helper renamed, same module, same signature)
+        self._resolve_renames()
+
+    _ANCHORS = None
+
+    def _resolve_renames(self):
+        """A private function of the pinned tree that is missing now, while exactly one NEW private function of the same
+        module has the identical signature, was renamed: the rule base keeps seeing it under the name it knows."""
+        import json, os
+        if Program._ANCHORS is None:
+            try:
+                Program._ANCHORS = json.load(open(os.path.join(os.path.dirname(os.path.abspath(__file__)), "anchors.json")))
+            except Exception:
+                Program._ANCHORS = {}
+        table = Program._ANCHORS.get(self.cfg) or {}
+        if not table:
+            return
+        missing = [p_ for p_ in table if p_ not in self.by_path and not table[p_][1].startswith("Public")]
+        if not missing or len(missing) > 12:
+            return
+        new = [f for f in self.fns.values() if f.kind != "Closure" and f.path not in table and not str(f.raw.get("vis") or "").startswith("Public")]
+        used = set()
+        unstable = set(missing) | {f.path for f in new}
+        cur_callers = defaultdict(set)
+        for f in self.fns.values():
+            for t_ in (b_["t"] for b_ in f.blocks):
+                if t_[0] == "call" and t_[1][0] == "k":
+                    nm_ = t_[1][1].get("res") or t_[1][1].get("fn")
+                    if nm_:
+                        cur_callers[nm_].add(f.path)
+
+        def profile_old(o_):
+            ent = table[o_]
+            if len(ent) < 4:
+                return None
+            return (frozenset(x for x in ent[2] if x not in unstable), frozenset(x for x in ent[3] if x not in unstable))
+
+        def profile_new(f):
+            cs = set()
+            for t_ in (b_["t"] for b_ in f.blocks):
+                if t_[0] == "call" and t_[1][0] == "k":
+                    nm_ = t_[1][1].get("res") or t_[1][1].get("fn")
+                    if nm_ and not nm_.startswith("core::panicking"):
+                        cs.add(nm_)
+            return (frozenset(x for x in cur_callers.get(f.path, ()) if x not in unstable), frozenset(x for x in cs if x not in unstable))
+        for old in sorted(missing, key=len):
+            sig, vis = table[old][0], table[old][1]
+            parent = old.rsplit("::", 1)[0]
+            # a nested item moves with its renamed parent
+            for n_, o_ in list(self.renames.items()):
+                if parent == o_ or parent.startswith(o_ + "::"):
+                    pass
+            cands = [f for f in new if f.id not in used and f.raw.get("sig", "") == sig and (f.path.rsplit("::", 1)[0] == parent or self.renames.get(f.path.rsplit("::", 1)[0]) == parent)]
+            if len(cands) > 1 and profile_old(old) is not None:
+                # several new functions share the signature: the one with the same callers and callees (outside the renamed set)
+                po = profile_old(old)
+                cands = [f for f in cands if profile_new(f) == po]
+            if len(cands) == 1 and sig:
+                f = cands[0]
+                used.add(f.id)
+                self.renames[f.path] = old
+                self.by_path[old].append(f)
+                f.renamed_from = f.path
+                f.path = old
+        # closures / nested items of renamed functions
+        if self.renames:
+            for f in self.fns.values():
+                for n_, o_ in self.renames.items():
+                    if f.path.startswith(n_ + "::"):
+                        np_ = o_ + f.path[len(n_):]
+                        self.by_path[np_].append(f)
+                        f.path = np_
 
     def fn(self, path):
         l = self.by_path.get(path)
